@@ -147,7 +147,7 @@ func ValidateIssuer(issuer string, allowInsecure bool) error {
 	if err != nil {
 		return ErrInvalidIssuerURL
 	}
-	if u.Host == "" {
+	if u.Hostname() == "" { // "https://:8443/path" has a Host but no host name
 		return ErrInvalidIssuerMissingHost
 	}
 	if u.Scheme != "https" {
